@@ -137,6 +137,37 @@ let op3_of_string (s : string) : op3 =
   | 'K' -> OCopy | 'G' -> OLast | 'P' -> ODig
   | _ -> O2 (op_of_string s)
 
+let dots f l = String.concat "." (List.map f l)
+let svcval_str (x : svcval) : string =
+  match x with
+  | VMandatory l -> "m" ^ dots si l
+  | VAlpn l -> "a" ^ dots hex_of_bytes l
+  | VNoDefaultAlpn -> "n"
+  | VPort p -> "p" ^ si p
+  | VEch b -> "e" ^ hex_of_bytes b
+  | VIpv4 l -> "4" ^ dots hex_of_bytes l
+  | VIpv6 l -> "6" ^ dots hex_of_bytes l
+  | VDohPath b -> "d" ^ hex_of_bytes b
+  | VOhttp -> "o"
+  | VGroups l -> "g" ^ dots si l
+  | VUnknownP (k, b) -> "u" ^ si k ^ ":" ^ hex_of_bytes b
+
+let walk_str (w : walk_obs) : string =
+  match w with
+  | WNone -> "-"
+  | WErr -> "e"
+  | WBitmap l -> "B" ^ dots si l
+  | WSvc l -> "S" ^ (if l = [] then "-" else String.concat "," (List.map svcval_str l))
+  | WTxt l -> "T" ^ dots hex_of_bytes l
+
+let res4_str (r : res4) : string =
+  match r with
+  | R3 r -> res3_str r
+  | RDisplay l -> "v:" ^ (if l = [] then "-" else String.concat " " (List.map walk_str l))
+
+let op4_of_string (s : string) : op4 =
+  match s.[0] with 'V' -> ODisplay | _ -> O3 (op3_of_string s)
+
 let handle = function
   | ["pname"; lim; pos; m] ->
       show_outcome (fun (o, e) ->
@@ -156,9 +187,9 @@ let handle = function
   | ["pops"; lim; pos; m] ->
       show_outcome pops_str (c01_pops (bytes_of_hex m) (n_of_int (int_of_string pos)) (n_of_int (int_of_string lim)))
   | ["ops"; m; ops] ->
-      (match read_ops3 (bytes_of_hex m) (List.map op3_of_string (String.split_on_char ',' ops)) with
+      (match read_ops4 (bytes_of_hex m) (List.map op4_of_string (String.split_on_char ',' ops)) with
        | Ok None -> "short"
-       | Ok (Some l) -> String.concat " ; " (List.map res3_str l)
+       | Ok (Some l) -> String.concat " ; " (List.map res4_str l)
        | Err e -> "Err " ^ si e
        | Panic _ -> "Panic"
        | OutOfFuel -> "OutOfFuel")
